@@ -16,7 +16,9 @@ TECHNIQUE = ("property-based testing (Hypothesis): (i) one patch object with tem
 RULE = ("multi: a generated listing plus one patch (ordinary instructions, a temporary label, a conditional jump to that "
         "label, references to module symbols) registered at N=1..8 locations (insert_at at distinct blocks and/or an "
         "AllBlocksScope): N distinct suffixed symbols, each copy's jump leads to its own copy's label. errors: unknown "
-        "names raise UndefSymbolError unless allowed; defining a name that exists in the module raises "
+        "names (ordinary or temporary-looking, with or without a suffix given to the assembler, referenced in one or two "
+        "assemble() calls) raise UndefSymbolError unless allowed, in which case exactly one proxy-backed symbol exists, every "
+        "expression refers to that object and no two symbols share a name; defining a name that exists in the module raises "
         "MultipleDefinitionsError, and so does defining the same global / temporary label twice (with and without the "
         "caller's suffix, in one text - LLVM's own diagnostic accepted - or in two assemble() calls). chunks: C12-style token programs cut at 1-3 points (after terminators, inside data "
         "runs, between a label and its instruction) with no reference to a label of a later chunk; "
